@@ -150,5 +150,6 @@ package beacon
 //@   ensures upgraded: err == nil ==> (exists sl :: 0 <= sl && sl < 18446744073709551616 && st_fork(s.BeaconState) == up_chain(old(st_fork(s.BeaconState)), sl, fork_slot(old(spec.ALTAIR_FORK_EPOCH), old(spec.SLOTS_PER_EPOCH)), fork_slot(old(spec.BELLATRIX_FORK_EPOCH), old(spec.SLOTS_PER_EPOCH)), fork_slot(old(spec.CAPELLA_FORK_EPOCH), old(spec.SLOTS_PER_EPOCH)), fork_slot(old(spec.DENEB_FORK_EPOCH), old(spec.SLOTS_PER_EPOCH)), fork_slot(old(spec.ELECTRA_FORK_EPOCH), old(spec.SLOTS_PER_EPOCH))))
 //@   ensures known: old(st_fork(s.BeaconState)) >= 0 && err == nil ==> st_fork(s.BeaconState) >= old(st_fork(s.BeaconState))
 //@   assigns ghost(n_fork_view), ghost(last_fork_view)
+//@   assigns ghost(n_dhdr_view), ghost(last_dhdr_view)
 
 // END C18 generated
